@@ -267,7 +267,8 @@ def run_model(requests, shards=16):
     procs = []
     for i in range(shards):
         part = requests[i * chunk:(i + 1) * chunk]
-        p = subprocess.Popen([DRIVER], stdin=subprocess.PIPE, stdout=subprocess.PIPE, text=True)
+        p = subprocess.Popen(["bash", "-c", f"ulimit -s unlimited 2>/dev/null || ulimit -s 1000000; exec {DRIVER}"],
+                             stdin=subprocess.PIPE, stdout=subprocess.PIPE, text=True)
         procs.append((p, part))
     # write/read concurrently using threads to avoid pipe deadlock
     import threading
